@@ -56,6 +56,7 @@ def main(argv=None):
             errors.append(f"{engine_name}: {ex!r}")
     findings = load_findings()
     violations, known, inconclusive, nonrepro = [], [], [], []
+    replayed_known = set()
     cexdir = os.path.join(BUILD, "cex", prop)
     n_cex = 0
     for r in results:
@@ -63,7 +64,10 @@ def main(argv=None):
             inconclusive.append(r)
         for fl in r.failures:
             kf = match_known(prop, fl, findings)
-            if fl.replayed is None and kf is None:
+            first_of_known = kf is not None and kf["role"] not in replayed_known
+            if first_of_known:
+                replayed_known.add(kf["role"])          # one native replay per listed finding and run
+            if fl.replayed is None and (kf is None or first_of_known):
                 # replay before reporting
                 try:
                     registry.replay(prop, r, fl)
@@ -90,7 +94,7 @@ def main(argv=None):
         if key in printed:
             continue
         printed.add(key)
-        print(f"KNOWN-FINDING: property={prop} {kf.get('what', fl.description)}")
+        print(f"KNOWN-FINDING: property={prop} {kf.get('what', fl.description)}" + (f" [{fl.replay_note[:160]}]" if fl.replay_note else ""))
     for r, fl, path in violations:
         print(f"  violation detail: {fl.description} @ {fl.location} [{fl.replay_note}]")
         print(f"VIOLATION property={prop} replay={path}")
